@@ -30,6 +30,10 @@
 (*   gate (getDBFromCtx, methodsPermissions / maintenanceMethods, the      *)
 (*   session manager and the token login list); the Q* constants switch    *)
 (*   the quirks of the pinned code on and off.                             *)
+(* Mode = "flow" / "flowcode": multi-step flows of a user with permissions  *)
+(*   on TWO databases (see the section "flows" below): what is bound at    *)
+(*   one step (the database of an interactive transaction) and checked at  *)
+(*   another (the selected database at TxSQLExec / Commit time).           *)
 (* Mode = "trace": no guard, the outcome comes from the log of the real    *)
 (*   server (TraceAuth.tla) and the clauses judge it.                      *)
 (***************************************************************************)
@@ -41,6 +45,8 @@ CONSTANTS NSess,       \* session / token slots of the test user
           QDocMaint,   \* code: document write RPCs are in auth.maintenanceMethods (exempt from "systemdb is read-only")
           QTxBypass,   \* code: NewTx/TxSQLExec/Commit never pass through getDBFromCtx
           QRefCount,   \* code: the token login list is reference counted (RemoveSession only decrements)
+          QTxReadGate, \* flow code model: NewTx(ReadWrite) is gated by the READ permission only (a breakage, not the pinned code)
+          FlowPhased,  \* flow mode: behaviours follow the phases open, newtx, switch / re-permission, txexec, commit, call
           EmitHist     \* print every finished history as JSON (simulation)
 
 Roles == {"none", "R", "RW", "Admin", "SysAdmin"}
@@ -61,6 +67,8 @@ Effects ==
 
 VARIABLES role0,    \* role the user was created with
           cur,      \* current permission on "own" (SysAdmin: "SysAdmin")
+          curo,     \* current permission on "other" ("none" except in the flow modes; SysAdmin: "SysAdmin")
+          tx,       \* flow modes: the interactive transaction of slot 1: [st, db it is bound to, mode, dirty]
           active,   \* user is active
           sess,     \* slot -> [kind, st, sel]
           nlog,     \* policy: number of the user's token logins that have not logged out since the logins were last cut off
@@ -70,12 +78,13 @@ VARIABLES role0,    \* role the user was created with
           last,     \* the last call: pre-state and outcome
           steps,    \* number of management steps so far
           hist      \* history (observation only)
-vars == <<role0, cur, active, sess, nlog, logins, cached, epoch, last, steps, hist>>
+vars == <<role0, cur, curo, tx, active, sess, nlog, logins, cached, epoch, last, steps, hist>>
 
 NoSess == [kind |-> "session", st |-> "none", sel |-> "none", ep |-> 0]
 NoCall == [is |-> FALSE, permitted |-> FALSE]
 IsSys == role0 = "SysAdmin"
-PermOn(d) == IF IsSys THEN "SysAdmin" ELSE IF d = "own" THEN cur ELSE "none"
+NoTx == [st |-> "none", db |-> "none", mode |-> "-", dirty |-> FALSE]
+PermOn(d) == IF IsSys THEN "SysAdmin" ELSE IF d = "own" THEN cur ELSE IF d = "other" THEN curo ELSE "none"
 PermMap == [d \in Dbs |-> PermOn(d)]
 Slot(i) == IF i = 0 THEN NoSess ELSE sess[i]
 
@@ -139,7 +148,7 @@ AuthGrant == (last.is /\ last.permitted) => InvAuthGrant(last)
 ValidSlotsAreEntitled ==
   \A i \in 1..NSess : sess[i].st = "valid" =>
      active /\ (sess[i].kind = "token" \/ Rank(PermOn(sess[i].sel)) >= 1)
-TypeOK == /\ role0 \in Roles /\ cur \in Roles /\ active \in BOOLEAN
+TypeOK == /\ role0 \in Roles /\ cur \in Roles /\ curo \in Roles /\ active \in BOOLEAN /\ tx.st \in {"none", "open"}
           /\ \A i \in 1..NSess : sess[i].kind \in Kinds /\ sess[i].st \in SessStates /\ sess[i].sel \in Sels /\ sess[i].ep \in Nat
           /\ (IsSys <=> cur = "SysAdmin")
 
@@ -202,14 +211,18 @@ GoOutcome(i, cls) == IF GoGate(i, cls) THEN Out(TRUE, cls[1] # "public", FALSE, 
 -----------------------------------------------------------------------------
 \* history entries carry the slot states after the step (what a replay compares the real server with)
 Ev(op, i, kind, db, p) == [op |-> op, s |-> i, kind |-> kind, db |-> db, p |-> p, after |-> <<>>, cur |-> "-", active |-> TRUE]
-Step(e) == /\ hist' = IF Mode = "trace" THEN hist
+Step(e) == /\ UNCHANGED <<curo, tx>>
+           /\ hist' = IF Mode = "trace" THEN hist
                       ELSE Append(hist, [e EXCEPT !.after = [i \in 1..NSess |-> sess'[i].st], !.cur = cur', !.active = active'])
            /\ steps' = steps + 1
 Invalidate(cause) == [i \in 1..NSess |-> IF sess[i].st = "valid" THEN [sess[i] EXCEPT !.st = cause] ELSE sess[i]]
 \* Go: every user-management change calls removeUserFromLoginList once
 Dec == IF QRefCount THEN (IF logins > 0 THEN logins - 1 ELSE 0) ELSE 0
 
+FlowMode == Mode \in {"flow", "flowcode"}
 Init == /\ role0 \in Roles /\ cur = role0 /\ active = TRUE
+        /\ curo \in (IF role0 = "SysAdmin" THEN {"SysAdmin"} ELSE IF FlowMode THEN Roles \ {"SysAdmin"} ELSE {"none"})
+        /\ tx = NoTx
         /\ sess = [i \in 1..NSess |-> NoSess]
         /\ nlog = 0 /\ logins = 0 /\ cached = role0 /\ epoch = 0 /\ last = NoCall /\ steps = 0 /\ hist = <<>>
 
@@ -308,18 +321,123 @@ CallCode(i, cls) ==
 \* trace mode: outcome from the log
 CallLogged(i, out) ==
   /\ last' = CallRec(i, out)
-  /\ UNCHANGED <<role0, cur, active, sess, nlog, logins, cached, epoch, steps, hist>>
+  /\ UNCHANGED <<role0, cur, curo, tx, active, sess, nlog, logins, cached, epoch, steps, hist>>
 
 Manage == \/ \E i \in 1..NSess, d \in Dbs : OpenSession(i, d) \/ UseDatabase(i, d)
           \/ \E i \in 1..NSess : Login(i) \/ Expire(i) \/ Logout(i)
           \/ \E p \in Roles : SetPermission(p)
           \/ Deactivate \/ Activate
-Next == \/ Manage
+Next == \/ ~FlowMode /\ Manage
         \/ Mode = "policy" /\ ~EmitHist /\ \E i \in 0..NSess, out \in RowOutcomes : CallPolicy(i, out)
         \* simulation (EmitHist): a behaviour is MaxSteps management steps followed by one call that prints it
         \/ Mode = "policy" /\ EmitHist /\ steps >= MaxSteps /\ CallPolicy(0, Out(FALSE, TRUE, FALSE, {}))
         \/ Mode = "code" /\ \E i \in 0..NSess, cls \in Classes : CallCode(i, cls)
 Spec == Init /\ [][Next]_vars
+
+-----------------------------------------------------------------------------
+(* FLOWS.  The user holds a permission on "own" (cur) AND on "other" (curo); slot 1 is a session.  A step is a      *)
+(* REQUEST: open(db), use(db), newtx(rw|ro), txexec(w|r), commit, rollback, exec(kind) (a non-interactive SQL /     *)
+(* document / key-value request on the selected database), or an administrator's setperm(db, p) / deact.            *)
+(* An interactive transaction stays bound to the database that was selected when it was opened (tx.db); the        *)
+(* selected database can change afterwards (use).  The policy is the same six clauses, about EFFECTS: the content of *)
+(* a database changes only with RW/Admin/SysAdmin on THAT database at the time of the effect, its data is returned  *)
+(* only with at least R on THAT database.                                                                           *)
+(* Mode = "flow": requests succeed whenever the policy has nothing against it (policy-maximal: opening a            *)
+(*   transaction or staging a statement has no effect yet); every step records the set of effects the policy        *)
+(*   allows in the state in which the request is made - the oracle of the replay on the real server.               *)
+(* Mode = "flowcode": the transcription of the Go code decides (NewTx: getDBFromCtx on the selected database;       *)
+(*   TxSQLExec / TxSQLQuery: the SQL engine asks multidbHandler.GetLoggedUser, which looks at the CURRENTLY         *)
+(*   selected database; Commit: no check) and the clauses judge the effect on the database the transaction is       *)
+(*   bound to.                                                                                                      *)
+FValid == sess[1].st = "valid"
+FSel == sess[1].sel
+FDbs == IF IsSys THEN Dbs ELSE {"own", "other"}
+ExecKinds == {"sqlw", "sqlr", "docw", "docr", "kvw", "kvr"}
+IsWrite(k) == k \in {"sqlw", "docw", "kvw", "w"}
+FSlot == IF sess[1].st = "none" THEN 0 ELSE 1
+FAllowed(creds) == {e \in Effects : PolicyOK(CallRec(FSlot, Out(TRUE, FALSE, creds /\ e.k = "auth", {e})))}
+FAuthOk == PolicyOK(CallRec(FSlot, Out(TRUE, TRUE, FALSE, {})))
+
+\* the decision: [ok, effs]
+FD(ok, effs) == [ok |-> ok, effs |-> IF ok THEN effs ELSE {}]
+NewTxGate(m) ==
+  IF QTxBypass THEN TRUE                                                   \* the code before 971ba6e: no gate at all
+  ELSE /\ FSel # "none"
+       /\ IF m = "rw" THEN FSel # "system" /\ Rank(PermOn(FSel)) >= (IF QTxReadGate THEN 1 ELSE 2)
+          ELSE Rank(PermOn(FSel)) >= 1
+GoFlow(op, d, a) ==
+  CASE op = "open" -> FD(active /\ Rank(PermOn(d)) >= 1, {[k |-> "auth", db |-> d]})
+    [] op = "use" -> FD(FValid /\ Rank(PermOn(d)) >= 1, {[k |-> "auth", db |-> d]})
+    [] op = "newtx" -> FD(FValid /\ NewTxGate(a), {})
+    [] op = "txexec" -> IF a = "w" THEN FD(FValid /\ tx.st = "open" /\ tx.mode = "rw" /\ Rank(PermOn(FSel)) >= 2, {})
+                        ELSE FD(FValid /\ tx.st = "open" /\ Rank(PermOn(FSel)) >= 1, {[k |-> "data", db |-> tx.db]})
+    [] op = "commit" -> FD(FValid /\ tx.st = "open", IF tx.dirty THEN {[k |-> "content", db |-> tx.db]} ELSE {})
+    [] op = "rollback" -> FD(FValid /\ tx.st = "open", {})
+    [] op = "exec" -> IF IsWrite(a) THEN FD(FValid /\ FSel \notin {"none", "system"} /\ Rank(PermOn(FSel)) >= 2, {[k |-> "content", db |-> FSel]})
+                      ELSE FD(FValid /\ FSel # "none" /\ Rank(PermOn(FSel)) >= 1, {[k |-> "data", db |-> FSel]})
+PolFlow(op, d, a) ==
+  CASE op = "open" -> FD(active /\ Rank(PermOn(d)) >= 1, {})
+    [] op = "use" -> FD(FValid /\ Rank(PermOn(d)) >= 1, {})
+    [] op = "newtx" -> FD(FValid /\ FSel # "none", {})
+    [] op = "txexec" -> FD(FValid /\ tx.st = "open" /\ (a = "w" => tx.mode = "rw"), {})
+    [] op \in {"commit", "rollback"} -> FD(FValid /\ tx.st = "open", {})
+    [] op = "exec" -> FD(FValid, {})
+Decide(op, d, a) == IF Mode = "flowcode" THEN GoFlow(op, d, a) ELSE PolFlow(op, d, a)
+
+FEv(op, d, a, dec) ==
+  [op |-> op, db |-> d, a |-> a, granted |-> dec.ok,
+   allowed |-> IF Mode = "flow" THEN SetToSeq(FAllowed(op = "open")) ELSE <<>>, authok |-> (Mode = "flow" /\ FAuthOk),
+   pcur |-> cur, pcuro |-> curo, txdb |-> tx.db, switched |-> (tx.st = "open" /\ tx.db # FSel)]
+FStep(op, d, a, dec) ==
+  /\ hist' = Append(hist, FEv(op, d, a, dec)) /\ steps' = steps + 1
+  /\ last' = IF op \in {"setperm", "deact"} THEN NoCall              \* the administrator's step is not a request of the user
+             ELSE CallRec(FSlot, Out(dec.ok, op # "open", op = "open", dec.effs))
+  /\ UNCHANGED <<role0, nlog, logins, cached, epoch>>
+FRunning == FlowMode /\ steps < MaxSteps
+Phase(n) == ~FlowPhased \/ steps + 1 = n
+
+FOpen(d) == /\ FRunning /\ Phase(1) /\ sess[1].st = "none"
+            /\ LET dec == Decide("open", d, "-") IN
+               /\ sess' = IF dec.ok THEN OpenSessionEffect(1, d) ELSE sess
+               /\ UNCHANGED <<cur, curo, active, tx>> /\ FStep("open", d, "-", dec)
+FUse(d) == /\ FRunning /\ (Phase(3) \/ Phase(4)) /\ sess[1].st # "none" /\ d # FSel
+           /\ LET dec == Decide("use", d, "-") IN
+              /\ sess' = IF dec.ok THEN UseDatabaseEffect(1, d) ELSE sess
+              /\ UNCHANGED <<cur, curo, active, tx>> /\ FStep("use", d, "-", dec)
+FNewTx(m) == /\ FRunning /\ Phase(2) /\ tx.st = "none"
+             /\ LET dec == Decide("newtx", "-", m) IN
+                /\ tx' = IF dec.ok THEN [st |-> "open", db |-> FSel, mode |-> m, dirty |-> FALSE] ELSE tx
+                /\ UNCHANGED <<cur, curo, active, sess>> /\ FStep("newtx", "-", m, dec)
+FTxExec(k) == /\ FRunning /\ (Phase(3) \/ Phase(4)) /\ (FlowPhased \/ tx.st = "open")
+              /\ LET dec == Decide("txexec", "-", k) IN
+                 /\ tx' = IF dec.ok /\ k = "w" THEN [tx EXCEPT !.dirty = TRUE] ELSE tx
+                 /\ UNCHANGED <<cur, curo, active, sess>> /\ FStep("txexec", "-", k, dec)
+FEnd(op) == /\ FRunning /\ Phase(5) /\ (FlowPhased \/ tx.st = "open")
+            /\ LET dec == Decide(op, "-", "-") IN
+               /\ tx' = IF dec.ok THEN NoTx ELSE tx
+               /\ UNCHANGED <<cur, curo, active, sess>> /\ FStep(op, "-", "-", dec)
+FExec(k) == /\ FRunning /\ Phase(6) /\ sess[1].st # "none"
+            /\ LET dec == Decide("exec", "-", k) IN
+               /\ UNCHANGED <<cur, curo, active, sess, tx>> /\ FStep("exec", "-", k, dec)
+\* the administrator changes the user between the steps: the session is closed, the transaction rolled back
+FSetPerm(d, p) == /\ FRunning /\ Phase(3) /\ ~IsSys /\ active /\ sess[1].st # "none" /\ p # PermOn(d)
+                  /\ cur' = (IF d = "own" THEN p ELSE cur) /\ curo' = (IF d = "other" THEN p ELSE curo)
+                  /\ sess' = Invalidate("permissionChanged") /\ tx' = NoTx /\ UNCHANGED active
+                  /\ FStep("setperm", d, p, FD(TRUE, {}))
+FDeact == /\ FRunning /\ Phase(3) /\ ~IsSys /\ active /\ sess[1].st # "none"
+          /\ active' = FALSE /\ sess' = Invalidate("userDeactivated") /\ tx' = NoTx /\ UNCHANGED <<cur, curo>>
+          /\ FStep("deact", "-", "-", FD(TRUE, {}))
+FlowNext == \/ \E d \in FDbs : FOpen(d) \/ FUse(d)
+            \/ \E m \in {"rw", "ro"} : FNewTx(m)
+            \/ \E k \in {"w", "r"} : FTxExec(k)
+            \/ FEnd("commit") \/ (~FlowPhased /\ FEnd("rollback"))
+            \/ \E k \in (IF FlowPhased THEN {"sqlw", "sqlr", "docw", "kvw"} ELSE ExecKinds) : FExec(k)
+            \/ \E d \in {"own", "other"}, p \in Roles \ {"SysAdmin"} : FSetPerm(d, p)
+            \/ FDeact
+FlowSpec == Init /\ [][FlowNext]_vars
+\* a finished flow (flow mode), printed once
+EmitFlow == (Mode = "flow" /\ steps = MaxSteps) => PrintT(<<"JSON:", ToJson([role |-> role0, hist |-> hist])>>)
+FlowView == <<role0, cur, curo, active, sess[1], tx, last>>
 
 -----------------------------------------------------------------------------
 (* matrix: policy mode prints one row per distinct call state (the VIEW projects call states to the row),      *)
